@@ -460,6 +460,13 @@ func (c *Cluster) dagReplay(variants int) {
 			// most of the history is re-read from the database
 			storeKind = "badger"
 			cache = maxInt(window+10*len(c.genesisSet)+10, 30) + r.Intn(30)
+			if r.Bool(0.5) {
+				// tight: around the largest number of undetermined events the
+				// reference instance ever held - undetermined events themselves get
+				// evicted and re-read between two passes
+				cache = maxInt(window-8+r.Intn(20), 20)
+				c.stats.probe("dagreplay-smallbadger-tight")
+			}
 		case "cache":
 			// from the in-flight window up to the default
 			cache = maxInt(4*window+20*len(c.genesisSet)+50, 200) + r.Intn(500)
